@@ -10,7 +10,7 @@ EXTENDS Naturals, Sequences, FiniteSets, TLC
 
 Specs    == {"s1", "s2"}
 Statuses == {"t0", "t1", "t2"}
-Labels   == {"l0", "l1"}
+Labels   == {"l0", "l1", "l2"}
 Anns     == {"a0", "a1", "a2"}
 Fins     == {"f0", "f1"}
 SubGens  == {0, 7}
